@@ -188,6 +188,16 @@ func checkBlockLengthSiblings(p *Prog, r *Report) {
 		nRem := 0
 		bad := ""
 		for _, l := range leaves {
+			// a leaf behind a constant-false guard is dead code
+			dead := false
+			for _, ft := range l.facts {
+				if k, ok := ft.Cond.(*ssa.Const); ok && k.Value != nil && (k.Value.String() == "true") != ft.Val {
+					dead = true
+				}
+			}
+			if dead {
+				continue
+			}
 			_, f := loadedField(stripConv(l.val))
 			switch f {
 			case remF:
